@@ -27,9 +27,9 @@ func and(fs ...func(string) bool) func(string) bool {
 }
 
 var (
-	inWKB      = inPkgs("encoding/internal/wkbcommon.", "encoding/wkb.", "encoding/ewkb.")
-	inMVT      = and(inPkgs("encoding/mvt."), not(inPkgs("encoding/mvt/vectortile.")))
-	inDecoders = and(inPkgs("encoding/", "geojson."), not(inPkgs("encoding/mvt/vectortile.")))
+	inWKB        = inPkgs("encoding/internal/wkbcommon.", "encoding/wkb.", "encoding/ewkb.")
+	inMVT        = and(inPkgs("encoding/mvt."), not(inPkgs("encoding/mvt/vectortile.")))
+	inDecoders   = and(inPkgs("encoding/", "geojson."), not(inPkgs("encoding/mvt/vectortile.")))
 	notGenerated = not(inPkgs("encoding/mvt/vectortile."))
 )
 
@@ -90,6 +90,7 @@ func init() {
 	register("C04",
 		"Structural necessary conditions of the WKT round trip: writer and reader agree on keyword, keyword offset and EMPTY literal for every kind; Ring/Bound are written as POLYGON; floats are printed with %g/%v and parsed with 64 bits (necessary for identical float64); the writer is total on every kind/shape (abstract interpretation). The text grammar (collection splitting on exponents/nesting/EMPTY, whitespace handling) is NOT decided - a known round-trip failure there is out of reach of this family.",
 		ruleWKTTables,
+		ruleWKTTrimFirst,
 		ruleNoGlobalResult("wkt encoders", marshalEntries("encoding/wkt.Marshal", "encoding/wkt.MarshalString"), 2),
 		ruleShapeFaults(shapeConfig{label: "wkt writer", keep: inPkgs("encoding/wkt."), floor: 2}),
 		ruleMemberLoops(inPkgs("encoding/wkt."), 6, 0),
@@ -147,7 +148,7 @@ func init() {
 		ruleMemberLoops(inPkgs("planar.", "internal/length."), 14, 5),
 		ruleShapeFaults(shapeConfig{label: "planar measures", keep: and(inPkgs("planar.", "internal/length."), func(k string) bool { return !strings.Contains(k, "Contains") }), floor: 6}),
 		ruleRunOnce(inPkgs("planar.", "internal/length."), 20),
-		ruleCompose(concatSpecs(planarMeasureSpecs, planarLengthSpecs), 90),
+		ruleCompose(concatSpecs(planarMeasureSpecs, planarLengthSpecs, lowerCentroidSpecs), 100),
 	)
 
 	register("C13",
@@ -197,7 +198,9 @@ func init() {
 		ruleIndexPreserving("project.", 6),
 		ruleTileRounding,
 		rulePluralDelegates(inPkgs("encoding/mvt."), 4),
-		ruleDiscardedResult(func(k string) bool { return inPkgs("project.")(k) || (inPkgs("encoding/mvt.")(k) && strings.Contains(k, "Project")) }),
+		ruleDiscardedResult(func(k string) bool {
+			return inPkgs("project.")(k) || (inPkgs("encoding/mvt.")(k) && strings.Contains(k, "Project"))
+		}),
 		ruleMemberLoops(func(k string) bool {
 			return inPkgs("project.")(k) || (inPkgs("encoding/mvt.")(k) && strings.Contains(k, "Project"))
 		}, 8, 0),
@@ -591,7 +594,6 @@ var wkbUnitDecoders = []string{
 	"encoding/internal/wkbcommon.readPolygon", "encoding/internal/wkbcommon.readMultiPolygon", "encoding/internal/wkbcommon.readCollection",
 	"encoding/internal/wkbcommon.unmarshalPoints", "encoding/internal/wkbcommon.unmarshalMultiPoint", "encoding/internal/wkbcommon.unmarshalLineString",
 	"encoding/internal/wkbcommon.unmarshalMultiLineString", "encoding/internal/wkbcommon.unmarshalPolygon", "encoding/internal/wkbcommon.unmarshalMultiPolygon",
-	
 }
 
 // geojsonEncoders: Marshal methods read the value they encode.
